@@ -766,17 +766,17 @@ def gen_re(rng, tier):
 def generate(rng, tier, n):
     for i in range(n):
         r = rng.random()
-        if r < 0.50:
+        if r < 0.45:
             yield gen_rt(rng, tier)
-        elif r < 0.67:
+        elif r < 0.59:
             yield gen_raw(rng, tier)
-        elif r < 0.80:
+        elif r < 0.70:
             yield gen_re(rng, tier)
-        elif r < 0.86:
+        elif r < 0.76:
             yield gen_sess(rng, tier)
-        elif r < 0.90:
+        elif r < 0.80:
             yield gen_stack(rng, tier)
-        elif r < 0.94:
+        elif r < 0.85:
             yield gen_full(rng, tier)
         else:
             yield gen_ei(rng, tier)
